@@ -70,6 +70,25 @@ import json
 import os
 import re
 
+# every source function whose control flow is regenerated on every run (tools/coverage_map.py reads this list).
+# Router.handle_request and excview_tween_factory are translated in part; the rest of their text is pinned in pins_masked.json.
+TRANSLATED = [
+    'pyramid/viewderivers.py:secured_view',
+    'pyramid/viewderivers.py:_secured_view',
+    'pyramid/viewderivers.py:_secured_view.permitted',
+    'pyramid/viewderivers.py:_secured_view.secured_view',
+    'pyramid/viewderivers.py:_authdebug_view',              # derive-time part; the nested authdebug_view closure is PINNED
+    'pyramid/view.py:_find_views',
+    'pyramid/view.py:_call_view',
+    'pyramid/view.py:ViewMethodsMixin.invoke_exception_view',
+    'pyramid/tweens.py:_error_handler',
+    'pyramid/tweens.py:excview_tween_factory',
+    'pyramid/tweens.py:excview_tween_factory.excview_tween',
+    'pyramid/router.py:Router.invoke_request',
+    'pyramid/router.py:Router.handle_request',
+    'pyramid/httpexceptions.py:default_exceptionresponse_view',
+]
+
 HERE = os.path.dirname(os.path.abspath(__file__))
 FALLBACK = os.path.join(HERE, 'gen_fallback.json')
 _NC = object()
@@ -409,8 +428,13 @@ class Fn:
             if len(st.targets) != 1:
                 self.bad(st, 'multiple targets')
             t = st.targets[0]
+            if isinstance(t, ast.Subscript) and self.ev(t.value, env).ty == 'cache':      # A1: the store into the lookup cache
+                self.cache_keys = getattr(self, 'cache_keys', []) + [('set', _cache_key(self, t.slice, env, st))]
+                if self.ev(st.value, env).ty != 'views':
+                    self.bad(st, 'the value stored in the view-lookup cache is not the list of views')
+                return nxt(env)
             if isinstance(t, ast.Subscript):
-                if is_erased(self.ev(t.value, env)) or self.ev(t.value, env).ty == 'cache':      # A1
+                if is_erased(self.ev(t.value, env)):
                     self.ev(st.value, env)
                     return nxt(env)
                 self.bad(st, 'item assignment outside the table')
@@ -675,6 +699,27 @@ def c_getattr(fn, args, kws, node, env):
     fn.bad(node, 'getattr outside the table')
 
 
+FIND_VIEWS_INPUTS = ('ifaceR', 'ifaceC', 'text', 'N', 'vtypes')      # request_iface, context_iface, view_name, classifier, types
+
+
+def _cache_key(fn, key, env, node):
+    """A1 (a cache miss is assumed; transparency is C15's) is only reasonable if the key DETERMINES the cached list: it must be
+    a tuple of variables holding every input the loops read (both interfaces, the name, the classifier and the view types)"""
+    if not isinstance(key, ast.Tuple) or not all(isinstance(x, ast.Name) for x in key.elts):
+        fn.bad(node, 'view-lookup cache key is not a tuple of variables')
+    tys = sorted(env[x.id].ty if x.id in env else '?' for x in key.elts)
+    if tys != sorted(FIND_VIEWS_INPUTS):
+        fn.bad(node, 'view-lookup cache key does not consist of exactly the inputs of the lookup (types %s)' % tys)
+    return ast.dump(key)
+
+
+def c_cache_get(fn, args, kws, node, env):
+    if len(node.args) != 1 or kws:
+        fn.bad(node, 'cache.get arguments')
+    fn.cache_keys = getattr(fn, 'cache_keys', []) + [('get', _cache_key(fn, node.args[0], env, node))]
+    return Val('None', 'oviews', const=None)
+
+
 def c_find_views(fn, args, kws, node, env):
     got = [a.ty if not is_erased(a) else 'erased' for a in args]
     if got != ['erased', 'N', 'erased', 'erased'] or set(kws) != {'view_types', 'view_classifier'} \
@@ -747,7 +792,7 @@ def build_specs(npr_coq):
                 _k('view_types', 'ovtypes'), _k('view_classifier', 'oN')],
         attrs={'<registryobj>.adapters.registered': _k('tt', 'registered'), '<registryobj>._view_lookup_cache': _k('tt', 'cache'),
                '<registryobj>._lock': ERASED, '<ifaceR>.__sro__': _k('req_sro', 'listN'), '<ifaceC>.__sro__': _k('ctx_sro', 'listN')},
-        calls={'<cache>.get': lambda fn, a, k, n, e: _k('None', 'oviews', const=None),     # A1
+        calls={'<cache>.get': lambda fn, a, k, n, e: c_cache_get(fn, a, k, n, e),     # A1
                'itertools.product': lambda fn, a, k, n, e: (
                    _k('(list_prod %s %s)' % (a[0].coq, a[1].coq), 'listpair') if [x.ty for x in a] == ['listN', 'listN'] else
                    fn.bad(n, 'itertools.product arguments'))},
@@ -953,6 +998,10 @@ def translate_one(src, name, spec):
     if spec.get('view_or_pcall'):
         pass
     term = fn.block(body, 0, env, end)
+    if spec.get('cache_store'):
+        ck = getattr(fn, 'cache_keys', [])
+        if {k for k, _ in ck} != {'get', 'set'} or len({d for _, d in ck}) != 1:
+            raise Problem('%s: the view-lookup cache is not read and written exactly once under one and the same key' % spec['qual'])
     post = spec.get('post')
     if post == 'secured':
         want = {'__call_permissive__': fd.args.args[0].arg}
@@ -1045,7 +1094,7 @@ if __name__ == '__main__':
 
 # ---- masked pins: functions of which only a fragment is translated keep a pin on the REST of their text
 def masked_shapes(src):
-    """Router.handle_request with the statements from `response = _call_view(...)` on removed;
+    """{file: {qualname: hash}}: Router.handle_request with the statements from `response = _call_view(...)` on removed;
     excview_tween_factory with the nested excview_tween body removed"""
     import hashlib
     from harness.common import facts as F
@@ -1057,11 +1106,11 @@ def masked_shapes(src):
            and isinstance(st.value.func, ast.Name) and st.value.func.id == '_call_view']
     if len(idx) == 1:
         fn.body = fn.body[:idx[0]]
-    out['pyramid/router.py:Router.handle_request(before the view lookup)'] = hashlib.sha1(ast.dump(fd).encode()).hexdigest()[:16]
+    out['pyramid/router.py'] = {'Router.handle_request': hashlib.sha1(ast.dump(fd).encode()).hexdigest()[:16]}
     m = F.Module(src, 'pyramid/tweens.py')
     fd = F.strip_doc(m.find('excview_tween_factory'))
     for n in ast.walk(fd):
         if isinstance(n, ast.FunctionDef) and n.name == 'excview_tween':
             n.body = [ast.Pass()]
-    out['pyramid/tweens.py:excview_tween_factory(without the tween body)'] = hashlib.sha1(ast.dump(fd).encode()).hexdigest()[:16]
+    out['pyramid/tweens.py'] = {'excview_tween_factory': hashlib.sha1(ast.dump(fd).encode()).hexdigest()[:16]}
     return out
